@@ -244,6 +244,8 @@ type Pair struct {
 	HelloLen  int      // client handshake request
 	RespLen   int      // server handshake response without the inline seed frame
 	PostResp  []byte   // everything the server wrote after the response up to the client's release (seed frame ‖ early data)
+	PostSent  []byte   // what the middlebox actually delivered in its place (= PostResp unless TamperPost)
+	ClientErr error    // the error Dial returned (only with AllowClientFail)
 	Surplus   []byte   // the part of PostResp the client's handshake reads picked up (left in receiveBuffer)
 	PostQueue [][]byte // the rest of PostResp, as the client's data-phase reads will see it
 	EarlyWire [][]byte
@@ -261,6 +263,11 @@ type SetupOpts struct {
 	Hello Chunker  // chunking of the client's request towards the server
 	Resp  Chunker  // chunking of everything the server has written when it is released to the client
 	Early [][]byte // server-side Write calls issued right after WrapConn returned, before the release
+	// TamperPost, when set, rewrites everything the server wrote after its handshake response
+	// (inline seed frame ‖ early data) before the client sees any of it; pr.Keys are available.
+	TamperPost      func(pr *Pair, post []byte) []byte
+	AllowClientFail bool   // a failing client handshake is an outcome (Pair.ClientErr), not a setup error
+	EndAfterPost    string // eof | other | timeout: network error queued right behind the released bytes
 }
 
 func sender(dir int) int   { return dir }     // endpoint index that writes direction dir
@@ -378,23 +385,9 @@ func Setup(p Params, o SetupOpts) (*Pair, error) {
 		pr.EarlyWire = append(pr.EarlyWire, ws...)
 	}
 	pr.PostResp = append([]byte(nil), all[pr.RespLen:]...)
-	bounds := []int{pr.RespLen, pr.RespLen + seedFrame}
-	respSizes := o.Resp.Split(len(all), bounds)
-	pr.splitHandshakeReads(all, respSizes)
-	cc.FeedChunks(all, respSizes)
-	if !cc.Wait(opC) {
-		pr.Close()
-		return nil, errors.New("client Dial still blocked although the whole response was delivered")
-	}
-	if opC.Panic != nil || clErr != nil {
-		pr.Close()
-		return nil, fmt.Errorf("client handshake: %v panic=%v", clErr, opC.Panic)
-	}
-	pr.EP = [2]net.Conn{cl, srv}
-	pr.Rd[C2S] = &Reader{Conn: srv, SC: sc}
-	pr.Rd[S2C] = &Reader{Conn: cl, SC: cc}
 
-	// link keys: redo the client's ntor computation through the exported API
+	// link keys: redo the client's ntor computation through the exported API (needs only the
+	// client's session key pair and the server's public response)
 	if nodeID, idPub, sess, _, ok := obfs4.VerifClientArgs(cargs); ok && len(first) >= 32 {
 		var repr ntor.Representative
 		copy(repr.Bytes()[:], first[:32])
@@ -403,12 +396,12 @@ func Setup(p Params, o SetupOpts) (*Pair, error) {
 			okm := ntor.Kdf(seed.Bytes()[:], framing.KeyLength*2)
 			pr.Keys[C2S] = okm[:framing.KeyLength]
 			pr.Keys[S2C] = okm[framing.KeyLength:]
-			// cross-check against the live encoder/decoder state
-			if enc, dec, ok := obfs4.VerifConnCrypto(cl); ok {
+			// cross-check against the server's live encoder/decoder state
+			if enc, dec, ok := obfs4.VerifConnCrypto(srv); ok {
 				ek, ep, _ := enc.VerifState()
 				dk, dp, _, _, _ := dec.VerifState()
-				if string(ek) != string(pr.Keys[C2S][:32]) || string(ep) != string(pr.Keys[C2S][32:48]) ||
-					string(dk) != string(pr.Keys[S2C][:32]) || string(dp) != string(pr.Keys[S2C][32:48]) {
+				if string(ek) != string(pr.Keys[S2C][:32]) || string(ep) != string(pr.Keys[S2C][32:48]) ||
+					string(dk) != string(pr.Keys[C2S][:32]) || string(dp) != string(pr.Keys[C2S][32:48]) {
 					pr.KeyErr = "derived link keys differ from the live encoder/decoder keys"
 					pr.Keys = [2][]byte{}
 				}
@@ -419,6 +412,42 @@ func Setup(p Params, o SetupOpts) (*Pair, error) {
 	} else {
 		pr.KeyErr = "VerifClientArgs unavailable"
 	}
+
+	// the middlebox may rewrite what follows the response before the client sees any of it
+	if o.TamperPost != nil {
+		all = append(append([]byte(nil), all[:pr.RespLen]...), o.TamperPost(pr, pr.PostResp)...)
+		pr.PostSent = append([]byte(nil), all[pr.RespLen:]...)
+	} else {
+		pr.PostSent = pr.PostResp
+	}
+	bounds := []int{pr.RespLen, pr.RespLen + seedFrame}
+	var respSizes []int
+	if o.Resp.Kind == "respat" { // one cut, N bytes after the end of the response
+		respSizes = Chunker{Kind: "at", N: pr.RespLen + o.Resp.N}.Split(len(all), nil)
+	} else {
+		respSizes = o.Resp.Split(len(all), bounds)
+	}
+	pr.splitHandshakeReads(all, respSizes)
+	cc.FeedChunks(all, respSizes)
+	if o.EndAfterPost != "" {
+		cc.FeedErr(netErr(o.EndAfterPost))
+	}
+	if !cc.Wait(opC) {
+		pr.Close()
+		return nil, errors.New("client Dial still blocked although the whole response was delivered")
+	}
+	pr.EP = [2]net.Conn{cl, srv}
+	pr.Rd[C2S] = &Reader{Conn: srv, SC: sc}
+	if opC.Panic != nil || clErr != nil {
+		if o.AllowClientFail && opC.Panic == nil {
+			pr.ClientErr = clErr
+			pr.EP[0] = nil
+			return pr, nil
+		}
+		pr.Close()
+		return nil, fmt.Errorf("client handshake: %v panic=%v", clErr, opC.Panic)
+	}
+	pr.Rd[S2C] = &Reader{Conn: cl, SC: cc}
 	return pr, nil
 }
 
